@@ -1,4 +1,5 @@
 Require Import ExtrOcamlBasic.
-From Eupsv Require Import Base.Base Model.Crash Model.Db Model.CrashDb Model.CrashXdev.
+From Eupsv Require Import Base.Base Model.Crash Model.Db Model.CrashDb Model.CrashXdev Model.CrashCache.
 Extraction "model.ml" keep_types crash_state lower_atomic lower_inplace lower_all apply_effects is_tmp
-  empty_db run effects_gen image read_db crash_fs store_of view lower_atomic_at target_kinds load_cache.
+  empty_db run effects_gen image read_db crash_fs store_of view lower_atomic_at target_kinds load_cache
+  helper_unwind sys_target persists.
